@@ -85,6 +85,10 @@ def main(tier, replay):
         cases.append(('d%d' % i, 'fam', ch, ('lua', 'null', 'promela')[i % 3], h))
         ch, h = C.gen_hist_chart(base + 850000 + i)
         cases.append(('h%d' % i, 'fam', ch, ('lua', 'null', 'promela')[i % 3], h))
+        for k in range(3):
+            # selection among parallel regions: domains of every size on the same event
+            ch, h = C.gen_conflict_chart(base + 900000 + 3 * i + k)
+            cases.append(('k%d_%d' % (i, k), 'fam', ch, ('lua', 'null', 'promela')[i % 3], h))
     # enumerated family E
     fam = list(C.family_E(2, 2)) if tier == 'quick' else list(C.family_E(3, 2))
     hists = [[], ['e1'], ['e1', 'e1']] if tier != 'quick' else [['e1', 'e1']]
